@@ -45,14 +45,30 @@ _META_SEPS = [' ', '\n', ',', ' ', '  ', '\n  ', ' x ', ', ']
 _SPECIAL_CANON = [p for p in inspect.signature(ConfigNode.__init__).parameters
                   if p not in ('self', 'metadata', 'pyyaml_node') and not p.startswith('implicit_')]   # the constructor keywords
 
+_META_BROKEN = [" !u{{'a': 1} ", ' !u{{', " !u{{'a': 'x}}", " !u{{'a': 1}", " !u{{'a': 1)}}", " !u{{'a': 1]}}", " !u{{'a': [1}}", " !u{{'a': (1, 2}}",
+                " !u{{'a': \"x}}", " !u{{'a': '''x'}}''", ' !u{{"a\\"}}', " !u{{'a': 'x\\'}}", ' !u{{(', " !u{{'a': {1: 2}} }", ' !u{{ } }}',
+                " !u{{'a': r'\\'}}", ' !u{{ü: 😀 ]', " !u{{'''", ' !u{{"', ' !u{{\\']
 def _cps(s): return [ord(c) for c in s]
 def _str(cps): return ''.join(chr(c) for c in cps)
 
 def meta_text(segs):
     return ''.join(s[1] if s[0] == 't' else s[1] + '{' + s[2] + '}' for s in segs)
 
+class Src(str):
+    """a value given by its python source (spellings repr() never produces)"""
+
+# string spellings the end finder has to read as strings: escaped quotes, triple quotes (with quotes, '}}' and line breaks
+# inside), prefixes, brackets and '}}' inside strings, implicit concatenation, a backslash before the closing quote of a
+# raw string; and bracketed values: sets, tuples, nested dicts / lists
+_MD_SRCS = [r"'it\'s }}'", r'"say \"hi\" }}"', r"'\\'", r"'a\\'", r"'\\\'}}'", "'''tri'ple \"q\" }} '''", '"""a "q" \'\'\' }} b"""', "'''a\nb}}'''",
+            '""""x" """', "''''''", '""', "''", r"r'a\d}}'", "b'x}}'", r"rb'\x ]'", "f'{1+1}}}'", r"R'\''", "u'ü}}'", "'[({'", '")]}"',
+            "'}}'", "'a' \"}}\"", "('a' '}}')", '{7}', '{(1, 2)}', '[(1, {2: [3]})]', "{'y': {'z': {}}}", '((),)', '[[], {}]',
+            "{'😀': ['ü}}', {'k': (1,)}]}", '{1: {2: {3: {4: 5}}}}', "'\\N{BULLET}}}'", '-1.5e3', "dict(a=1)['a']", '[1,\n 2]']
+
 def _py_src(v, rng, depth=0, multiline=False):
     """python source of a value, in a random but valid spelling"""
+    if isinstance(v, Src):
+        return str(v)
     if isinstance(v, dict):
         sp = '\n ' if multiline and depth == 0 else rng.choice(['', '', ' '])
         items = [_py_src(k, rng, depth + 1) + rng.choice([': ', ':', ' : ']) + _py_src(x, rng, depth + 1) for k, x in v.items()]
@@ -69,6 +85,8 @@ def _py_src(v, rng, depth=0, multiline=False):
 _MD_STRS = ['bar', 'lru', '', 'a b', "it's", 'q"r', '{', '}', '{{', '} }', '{x}', '!t{{', 'é✓', '😀', '#', ':', 'a\nb', '}}', 'p}}q', '\\']
 def _md_value(rng, depth):
     r = rng.random()
+    if rng.random() < 0.22:
+        return Src(rng.choice(_MD_SRCS))
     if depth <= 0 or r < 0.55:
         return rng.choice([0, 1, -1, 7, True, False, None, 1.5] + _MD_STRS)
     if r < 0.7:
@@ -94,15 +112,8 @@ def gen_meta_case(rng):
     segs = []
     if rng.random() < 0.7:
         segs.append(['t', ''.join(rng.choice(_META_TEXTS) for _ in range(rng.choice([1, 1, 2, 3])))])
-    hard = rng.random() < 0.12      # a case that may contain what the end finder of the implementation cannot read (see meta_expect)
     for i in range(nb):
-        src = _py_src(_md_dict(rng), rng, 0, hard and rng.random() < 0.3)
-        for _ in range(40):
-            if hard or ('{' + src + '}').find('}}', 2) == len(src):
-                break
-            src = _py_src(_md_dict(rng), rng)
-        else:
-            src = '{}'
+        src = _py_src(_md_dict(rng), rng, 0, rng.random() < 0.15)
         blk = ['b', rng.choice(_META_TAGS), src]
         segs.append(blk)
         if i + 1 < nb or rng.random() < 0.75:        # else: the block is the very end of the text
@@ -113,8 +124,9 @@ def gen_meta_case(rng):
                 pass                                              # glued: the next tag follows without a separator
             else:
                 segs.append(['t', rng.choice(_META_SEPS) + ''.join(rng.choice(_META_TEXTS) for _ in range(rng.choice([0, 1, 2])))])
-    if rng.random() < 0.06:          # a block that never ends: the ValueError / tokenizer-error path of the search loop
-        segs.append(['t', rng.choice([" !u{{'a': 1} ", ' !u{{', " !u{{'a': 'x}}", " !u{{'a': 1}"])])
+    if rng.random() < 0.12:          # a block without end (the ValueError of the search loop): unterminated blocks and strings,
+        # closers that close nothing at depth 0, a single '}' at depth 0 - at the end of the text or followed by more text
+        segs.append(['t', rng.choice(_META_BROKEN) + rng.choice(['', '', ' k: 2\n', "}} 'x'}}", ' !v{{}}'])])
     return {'docs': [], 'style': ['flow', 0, 0], 'kind': 'meta', 'segs': segs}
 
 def META(*segs):
@@ -132,6 +144,12 @@ META_CORPUS = [
     META(('t', 'a: '), ('b', '!metadata', "{\n 'x': 1,\n }"), ('t', ' 5\nb: 6\n')),                           # multiline
     META(('b', '!a', "{'k': 1}"), ('b', '!b', "{'k': 2}")),                                                   # glued
     META(('t', 'a: '), ('b', '!x', "{'k': 1}"), ('t', " b: !u{{'never': 1} ")),                               # no end: ValueError
+    # the character scanner (repo fix e40192c; AY.Model.MetaText.metadataEnd): the witnesses of Props/C01_MetaText.lean section 5
+    META(('b', '!a', "{'k': 'it\\'s }}', 2: \"\"\"a\"b'''}}\"\"\", 3: r'[(', 4: [(1, {2})]}"), ('t', ' z')),
+    META(('t', 'k: '), ('b', '!del', '{ "x": 1, "y" : -2.5 }'), ('t', ' 5')),
+    META(('t', "!a{{'k': 1)}} !b{{'k': [1}} !c{{'k': 'x}} !d{{'k': 1} !e{{")),
+    META(('t', 'a: '), ('b', '!x', "{'p': '}}'}"), ('t', ' b '), ('b', '!del', '{\n}'), ('t', ','), ('b', '!y', '{1: (1, [2]), 2: {3}}')),
+    META(('b', '!m', "{'r': r'\\'}}', 'b': b'}}', 't': '''''', 'e': ''''x''', 'c': 'a' \"}}\"}"), ('t', '\n')),
 ]
 
 def meta_expect(segs):
@@ -239,6 +257,19 @@ def meta_compare(case, io, answers):
                 return f'ranges: the model reports no end for the tag at {found["start"]}; the implementation raises {cls}({msg!r})'
         elif not (isinstance(at, dict) and at['raise'] == cls):
             return f'ranges: the end finder answers {at!r} at {found["beg"]}, yet _get_metadata_content raises {cls}({msg!r})'
+    # 1b. the model's OWN end finder (AY.Model.MetaText.metadataEnd) against the real _get_metadata_end at every '{{' of the
+    #     text, and the search loop run with it against the real ranges
+    if a['ownEnds'] != io['ends']:
+        bad = [(r, m) for r, m in zip(io['ends'], a['ownEnds']) if r != m]
+        return f'end finder: _get_metadata_end answers {bad[0][0][1]!r} at {bad[0][0][0]}, the model {bad[0][1][1]!r} in {text!r}'
+    own = a['foundOwn']
+    if 'ranges' in io:
+        if own.get('ok') != io['ranges']:
+            return f'ranges: _get_metadata_content finds {io["ranges"]}, the model with its own end finder {json.dumps(own)} in {text!r}'
+    else:
+        cls, msg = io['ranges_error']
+        if cls != 'ValueError' or own.get('err') != 'noEnd' or not msg.endswith(f'begins at: {own["start"]}'):
+            return f'ranges: _get_metadata_content raises {cls}({msg!r}), the model with its own end finder answers {json.dumps(own)} for {text!r}'
     tags = [[m.start(), m.end(1)] for m in _TAG_RE.finditer(text)]
     if a['tags'] != tags:
         return f'tag regex: re finds {tags}, the model {a["tags"]} in {text!r}'
@@ -380,6 +411,14 @@ class C01(MergeFamProp):
                 f.append('meta:adjacent-blocks')
             if any(s[0] == 'b' and s[2].count('{') > 1 for s in segs): f.append('meta:nested-braces')
             if any(s[0] == 'b' and '\n' in s[2] for s in segs): f.append('meta:multi-line-literal')
+            srcs = ' '.join(s[2] for s in segs if s[0] == 'b')
+            if "'''" in srcs or '"""' in srcs: f.append('meta:triple-quoted')
+            if "\\'" in srcs or '\\"' in srcs: f.append('meta:escaped-quote')
+            if re.search(r"(?<![A-Za-z0-9_])[rRbBfFuU]{1,2}['\"]", srcs): f.append('meta:prefixed-string')
+            if re.search(r"'[^']*[\[\](){}][^']*'", srcs): f.append('meta:bracket-in-string')
+            if re.search(r"[\[(]", srcs): f.append('meta:list-tuple-set')
+            if any(s[0] == 't' and any(b.strip() in s[1] for b in _META_BROKEN) for s in segs): f.append('meta:block-without-end')
+            if isinstance(io, dict) and any(e is None for _, e in io.get('ends', [])): f.append('meta:end-finder-none')
             if any(ord(c) > 127 for c in meta_text(segs)): f.append('meta:unicode')
             if any(s[0] == 't' and '{{' in s[1] for s in segs): f.append('meta:braces-outside-blocks')
             if isinstance(io, dict):
